@@ -171,7 +171,18 @@ pub fn run_c12(args: &Args) -> Report {
     let mut runner = Runner::new(args, "c12");
     let mut scans = 0u64;
     for i in 0..n {
-        let p = gen_project(&mut rng, &opts);
+        let mut p = gen_project(&mut rng, &opts);
+        if rng.chance(1, 12) {
+            // a very long first line: the ending must still be taken from it (std BufReader holds 8 KiB)
+            let s0 = p.sources[0].clone();
+            let c = p.file_mut(&s0).unwrap();
+            let le = if rng.chance(1, 2) { "\r\n" } else { "\n" };
+            let mut first = "x".repeat(8180 + rng.below(40)).into_bytes();
+            first.extend_from_slice(le.as_bytes());
+            first.extend_from_slice(c);
+            *c = first;
+            p.sig.push("long-first-line".into());
+        }
         materialize(&p, &runner.dir);
         let mut cfg = RunCfg::build_all();
         cfg.threads = 1 + rng.below(4);
@@ -203,7 +214,7 @@ pub fn run_c12(args: &Args) -> Report {
                 }
             }
         }
-        let sig2: Vec<String> = sig.iter().filter(|x| x.starts_with("le:") || x.contains("tag-store") || x.starts_with("run") || x.starts_with("temp") || x.starts_with("include")).cloned().collect();
+        let sig2: Vec<String> = sig.iter().filter(|x| x.starts_with("le:") || x.starts_with("long-") || x.contains("tag-store") || x.starts_with("run") || x.starts_with("temp") || x.starts_with("include")).cloned().collect();
         runner.cases[idx].sig = sig2;
         if i == 0 {
             rep.sample(format!("{} => {}: files {:?}", cfg.describe(), runner.cases[idx].imp.verdict, runner.cases[idx].imp.after.files.keys().collect::<Vec<_>>()));
@@ -293,6 +304,29 @@ pub fn run_c13(args: &Args) -> Report {
         if let Some(what) = fail {
             rep.violation("oracle", &what, &replay_body(&case.before, &case.cfg, &case.cmds, &format!("# pair check (run with trailing on and off): {what}\n")));
         }
+        // the option must mean the same in a `--needed` rebuild over outputs of the other setting
+        if on.verdict == "ok" && rng.chance(1, 3) {
+            let (on, off) = (outs[0].0.clone(), outs[1].0.clone());
+            let first_on = rng.chance(1, 2);
+            materialize(&p, &runner.dir);
+            let mut last = None;
+            for step in 0..2 {
+                let mut cfg = RunCfg::build_all();
+                cfg.mode = "needed";
+                cfg.trailing = if step == 0 { first_on } else { !first_on };
+                cfg.threads = 2;
+                last = Some(runner.run_here(&cfg, &p.cmds, vec![format!("needed-sequence|first_on={first_on}")], &format!("project #{i} needed step {step}")));
+            }
+            let c = &runner.cases[last.unwrap()];
+            let want = if first_on { &off } else { &on };
+            if c.imp.verdict != "ok" || c.imp.after.files != want.after.files {
+                let what = format!(
+                    "--needed rebuild with trailing={} over a tree built with trailing={} does not give the files of a fresh build with trailing={}",
+                    !first_on, first_on, !first_on
+                );
+                rep.violation("oracle", &what, &replay_body(&c.before, &c.cfg, &c.cmds, &format!("# {what}\n")));
+            }
+        }
         let endsig: Vec<String> = p.sig.iter().filter(|x| x.starts_with("ends-") || x.starts_with("empty-file")).cloned().collect();
         let n_cases = runner.cases.len();
         runner.cases[n_cases - 1].sig = vec![format!("{:?}|{:?}|forced={forced}", endsig, rel)];
@@ -353,19 +387,35 @@ pub fn run_c16(args: &Args) -> Report {
             with_tag = rng.chance(1, 3);
             let mut exp: Vec<String> = vec![];
             if with_tag {
-                src_lines.push("//TXTPP#tag TAG1".to_string());
-                src_lines.push("//TXTPP#write stored".to_string());
+                src_lines.push("@@TXTPP#tag TAG1".to_string());
+                src_lines.push("@@TXTPP#write stored".to_string());
             }
-            src_lines.push(format!("-TXTPP#write {}", lines[0]));
+            let pre = *rng.pick(&["-", "-", "//", "# ", "» ", "§", "é"]);
+            src_lines.push(format!("{pre}TXTPP#write {}", lines[0]));
             for l in &lines[1..] {
-                src_lines.push(format!("-{l}"));
+                if l.is_empty() && pre.ends_with(' ') && rng.chance(1, 2) {
+                    src_lines.push(pre.trim_end().to_string());
+                } else {
+                    src_lines.push(format!("{pre}{l}"));
+                }
             }
             exp.extend(lines.iter().cloned());
+            // what follows the block: an ordinary line that must end the directive and be copied
+            let mut follow = String::new();
             if with_tag {
                 src_lines.push("use TAG1.".to_string());
+                follow = "use stored.".to_string();
+            } else if rng.chance(1, 2) {
+                let cands: Vec<String> = vec![" y".into(), "  indented line".into(), "   three".into(), "plain".into(), format!("{}z", " ".repeat(pre.chars().count()))];
+                let f = rng.pick(&cands).clone();
+                // it must not be a continuation by the documented rule (prefix, or byte-length many spaces)
+                if !f.starts_with(pre) && !f.starts_with(&" ".repeat(pre.len())) && f != pre.trim_end() {
+                    src_lines.push(f.clone());
+                    follow = f;
+                }
             }
             // write output has no final line ending of its own: the following text joins it (README splice rule)
-            expected_core = exp.join(le) + if with_tag { "use stored." } else { "" };
+            expected_core = exp.join(le) + &follow;
         }
         let mut content = src_lines.join(le).into_bytes();
         if final_nl && !src_lines.is_empty() {
